@@ -30,7 +30,7 @@ def collect_units(prop):
     units = []
     for tgt, cds in dsl.CONTRACTS.items():
         for i, cd in enumerate(cds):
-            if prop in cd.props:
+            if prop in cd.props and not verify.parsed(cd).options.get('assumed'):
                 units.append(('contract', tgt, i))
     for name, lm in dsl.LEMMAS.items():
         if prop in lm.props:
@@ -120,9 +120,21 @@ def find_cdef(unit_name):
 
 
 def replay_inputs(unit, inputs, chain):
+    import signal
     cd = find_cdef(unit)
     fn, owner, kind = verify.resolve_target(cd.target)
-    return replay.check_contract(cd, fn, kind, owner, inputs, chain or None)
+
+    def _alarm(sig, frm):
+        raise TimeoutError('replay timed out')
+    old = signal.signal(signal.SIGALRM, _alarm)
+    signal.alarm(5)
+    try:
+        return replay.check_contract(cd, fn, kind, owner, inputs, chain or None)
+    except TimeoutError:
+        return {'verdict': 'error', 'detail': 'replay timed out'}
+    finally:
+        signal.alarm(0)
+        signal.signal(signal.SIGALRM, old)
 
 
 def neighbours(inputs, rng, n):
@@ -162,6 +174,7 @@ def main(argv):
     jobs = jobs_for(prop)
     nproc = int(os.environ.get('PYVC_JOBS', '16'))
     results = []
+    assumed_used = set()
     done_units = set()
     rounds = 0
     with multiprocessing.Pool(min(nproc, max(1, len(jobs)))) as pool:
@@ -184,6 +197,9 @@ def main(argv):
                     tgt, _, rest = used.partition('[')
                     cname = rest.rstrip(']')
                     for i, cd in enumerate(dsl.CONTRACTS.get(tgt, [])):
+                        if cd.name == cname and verify.parsed(cd).options.get('assumed'):
+                            assumed_used.add(used)
+                            continue
                         if cd.name == cname and ('contract', tgt, i) not in done_units:
                             done_units.add(('contract', tgt, i))
                             n = 4 if verify.parsed(cd).options.get('chains') else 1
@@ -330,8 +346,9 @@ def main(argv):
         'evaluations': max(1, n_obs), 'distinct_nontrivial': max(2, len({(o['kind'], o['descr']) for r in results for o in r['obs']})),
         'rule': 'one case per generated proof obligation (path condition => goal); distinct = distinct (kind, text)',
     }
+    cov['assumed_contracts_used'] = sorted(assumed_used)
     ev = {'property_id': prop, 'tier': tier, 'seed': seed, 'level': level, 'coverage': cov,
-          'assumptions': PROPS[prop].get('assumptions', []), 'wall_s': round(wall, 2),
+          'assumptions': PROPS[prop].get('assumptions', []) + ['ASSUMED (unproved) contract used at call sites: %s' % a for a in sorted(assumed_used)], 'wall_s': round(wall, 2),
           'violations': len(lines)}
     with open(os.path.join(VERIF, 'evidence', '%s.json' % prop), 'w') as f:
         json.dump(ev, f, indent=1, default=str)
@@ -405,6 +422,8 @@ def do_replay(path):
 
 
 if __name__ == '__main__':
+    import faulthandler, signal
+    faulthandler.register(signal.SIGUSR1, all_threads=True)
     try:
         sys.exit(main(sys.argv))
     except SystemExit:
